@@ -139,7 +139,10 @@ def run(ctx):
         dq = Fraction(dmv)
         dtop, dbot = exact_delay(dq, fmax, frq) * rq, exact_delay(dq, fmin, frq) * rq
         # (an exactly zero delay stays exactly zero in the code only when the reference IS the band-edge object, not a re-expressed copy)
-        if any(abs(d - round(d)) < Fraction(1, 10 ** 9) * (1 + abs(d)) and (d != 0 or converted) for d in (dtop, dbot)):
+        # ... and a delay is the difference of two terms K DM rate / f^2 of size `scale` evaluated in doubles: within ~2^-48 * scale of a
+        # whole sample the ceil() of the code and of the exact model may differ (e.g. 2e-9 samples at scale 5e6 - C05 thorough, seed 0)
+        scale = abs(K * dq * Fraction(10 ** 12) / (fmin * fmin) * rq)
+        if any(abs(d - round(d)) < Fraction(1, 10 ** 9) * (1 + abs(d)) + scale / 2 ** 48 and (d != 0 or converted) for d in (dtop, dbot)):
             ctx.count('regenerated_integer_delay')
             continue
         done += 1
